@@ -33,8 +33,11 @@ func isDynCallOfField(owner, field string) func(ssa.Instruction) bool {
 	}
 }
 
-func c05R1(c *Ctx, r *Report) {
-	const rule = "C05-R1"
+func c05R1(c *Ctx, r *Report) { stopSequenceRule(c, r, "C05-R1") }
+
+// stopSequenceRule is shared with C01-R8: a module that goes offline before its stop
+// routine has begun lets its dependencies stop while it is still running.
+func stopSequenceRule(c *Ctx, r *Report, rule string) {
 	r.SetFloor(rule, 6)
 	fn := c.Func("modules.(*Module).stopAllTasks")
 	if fn == nil {
